@@ -126,11 +126,13 @@ def bucketLt (a b : Node) : Bool :=
 rounded y, then insertion order), inside the OPEN box of half-width `th` around `q`. `store` is in
 insertion order. (A stored point inside the open box always lies in the scanned bucket range because
 rounding is monotone.) -/
+def pickFirst (best : Option Node) (s : Node) : Option Node :=
+  match best with
+  | none => some s
+  | some b => if bucketLt s b then some s else some b
+
 def findNear (th : Rat) (store : List Node) (q : Pt) : Option Node :=
-  (store.filter (fun s => absR (q.x - s.p.x) < th && absR (q.y - s.p.y) < th)).foldl
-    (fun best s => match best with
-      | none => some s
-      | some b => if bucketLt s b then some s else some b) none
+  (store.filter (fun s => absR (q.x - s.p.x) < th && absR (q.y - s.p.y) < th)).foldl pickFirst none
 
 structure EdgeIn where
   src : Node
